@@ -79,6 +79,15 @@ func (j *ScenarioJob) Run(deadline time.Time) *runner.JobResult {
 	a0 := sc.RunOnce(vx.NewChooser(nil), true)
 	a := sc.RunOnce(vx.NewChooser(a0.Choices), true)
 	b := sc.RunOnce(vx.NewChooser(a.Choices), true)
+	for _, r := range []*ExecResult{a0, a, b} {
+		for _, v := range r.Viol {
+			if v.Sig == "restart-changed-database" {
+				// not a harness problem: starting the server on the stored database altered it
+				res.Violations = append(res.Violations, runner.Violation{Sig: v.Sig, Msg: v.Msg, Job: sc.Name, Replay: map[string]any{"job": sc.Name, "choices": r.Choices}})
+				return res
+			}
+		}
+	}
 	if a0.Outcome != a.Outcome || sigs(a0) != sigs(a) {
 		res.HarnessErr = "setup snapshot self-test failed: running the setup and restoring its snapshot differ: " + firstDiff(a0.Outcome, a.Outcome) + " | " + sigs(a0) + " vs " + sigs(a) + fmt.Sprintf(" | log lines %d vs %d; tails: %v ||| %v", len(a0.Log), len(a.Log), tailS(a0.Log, 6), tailS(a.Log, 6))
 		return res
